@@ -1,8 +1,10 @@
 import Nstd.Life.Model
 /-
-  The specification side of C04: an automaton that reads a lifecycle event log and accepts it
-  iff every object slot goes through  construct (assign | read)* destroy  cycles only, every
-  read (copy / assignment source) hits a live object, objects are constructed only inside
+  The specification side of C04: an automaton that takes a lifecycle event log and accepts it
+  iff every object slot goes through  construct assign* destroy  cycles only, every SOURCE of a copy
+  construction or assignment is a live object (these are the only reads the log contains: key
+  comparisons, hashing and `==` walks of the lookup code are not events - which objects they touch is
+  checked on the real code by the harness ledger only), objects are constructed only inside
   allocated blocks (or in a sentinel), every block id is allocated at most once, a block is freed
   only while allocated and only when no object inside is live (so: freed exactly once, nothing
   leaked into it).  `Clean` = nothing live, nothing allocated (demanded after the destructors).
